@@ -438,54 +438,61 @@ BASE = {"max": ("np.max", None), "mean": ("np.mean", None), "min": ("np.min", No
 
 
 def estimator_table(rep):
+    """The table of predefined estimators is *evaluated* (module-level display, `**` merges,
+    comprehensions, lambdas with python's late binding of loop variables -- aurelsa.fdpe) and
+    every entry applied to a symbolic array: the value must be the one its name announces."""
+    from ..fdpe import FDPE, Sym, SymbolicBranch, to_term
+    from ..tensor import NeedConfig, PathEnds, Unsupported
+    from ..exact import Aff
     S = rep.sources
     tree = S.module(TIME)
-    table = None
+    node = None
     for st in tree.body:
-        if isinstance(st, ast.Assign) and unparse(st.targets[0]) == "est_functions" \
-                and isinstance(st.value, ast.Dict):
-            table = st.value
-    if table is None:
+        if isinstance(st, ast.Assign) and unparse(st.targets[0]) == "est_functions":
+            node = st
+    if node is None:
         raise AnalysisError("time.py: est_functions table not found")
+    it = FDPE(S, rel=TIME, cls="<none>")
+    try:
+        table = it.module_value(TIME, "est_functions")
+    except KeyError:
+        raise AnalysisError("time.py: est_functions table not found")
+    except (Unsupported, PathEnds, NeedConfig) as e:
+        raise AnalysisError(f"time.py: est_functions cannot be evaluated: {e}")
+    if not isinstance(table, dict):
+        raise AnalysisError("time.py: est_functions is not a dictionary")
+    A = ("param", "array")
     n = 0
-    for k, v in zip(table.keys, table.values):
-        name = k.value
+    for name, f in table.items():
         key = f"{TIME}::est_functions[{name!r}]"
         n += 1
-        m = re.fullmatch(r"x([01])y([01])z([01])", name)
-        if m:
-            want = ", ".join("0" if b == "0" else "-1" for b in m.groups())
-            ok = isinstance(v, ast.Lambda) and isinstance(v.body, ast.Subscript) \
-                and unparse(v.body.value) == v.args.args[0].arg \
-                and unparse(v.body.slice).replace("(", "").replace(")", "") == want
-            rep.check(ok, "estimator-table", key,
-                      f"corner '{name}' must be array[{want}] (x, y, z order; 0 = first, 1 = "
-                      f"last), got {norm_src(v)[:50]}", node=v)
+        try:
+            got = to_term(it.apply(f, [Sym(A)], node))
+        except SymbolicBranch as e:
+            rep.violation("estimator-table", key, f"'{name}' depends on the data: {e}", node=node)
             continue
-        absf = name.endswith("abs")
-        base = name[:-3] if absf else name
+        except (Unsupported, PathEnds, NeedConfig) as e:
+            raise AnalysisError(f"est_functions[{name!r}] cannot be evaluated: {e}")
+        m = re.fullmatch(r"x([01])y([01])z([01])", str(name))
+        if m:
+            want_idx = tuple(Aff(0 if b_ == "0" else -1) for b_ in m.groups())
+            txt = ", ".join("0" if b_ == "0" else "-1" for b_ in m.groups())
+            rep.check(got == ("idx", A, want_idx), "estimator-table", key,
+                      f"corner '{name}' must be array[{txt}] (x, y, z order; 0 = first, 1 = "
+                      f"last), got {got!r}"[:300], node=node)
+            continue
+        absf = str(name).endswith("abs")
+        base = str(name)[:-3] if absf else str(name)
         if base not in BASE:
             rep.unverified("estimator-table", key, "name not in the naming scheme")
             continue
         fn_name, pct = BASE[base]
-        if isinstance(v, ast.Lambda):
-            arg = v.args.args[0].arg
-            call = v.body
-            ok = isinstance(call, ast.Call) and unparse(call.func) == fn_name
-            if ok:
-                a0 = unparse(call.args[0]) if call.args else ""
-                ok = a0 == (f"np.abs({arg})" if absf else arg)
-                if pct is not None:
-                    ok = ok and len(call.args) == 2 and const_value(call.args[1]) == pct
-                else:
-                    ok = ok and len(call.args) == 1
-                ok = ok and not call.keywords
-        else:
-            ok = unparse(v) == fn_name and not absf and pct is None
-        rep.check(ok, "estimator-table", key,
+        arg = ("call", ("global", "np.abs"), (A,)) if absf else A
+        want = ("call", ("global", fn_name), (arg,) + ((Aff(pct),) if pct is not None else ()))
+        rep.check(got == want, "estimator-table", key,
                   f"'{name}' must be {fn_name}({'|array|' if absf else 'array'}"
                   f"{', ' + str(pct) if pct is not None else ''}) with no other option, got "
-                  f"{norm_src(v)[:60]}", node=v)
+                  f"{got!r}"[:300], node=node)
     if n < 20:
         raise AnalysisError(f"est_functions: only {n} entries")
 
